@@ -33,6 +33,7 @@ func initialSchema() Schema {
 		{Name: "Query", File: "a.graphql", Fields: []Field{
 			{Name: "alpha", Type: "String!"},
 			{Name: "beta", Args: []Arg{{"x", "Int"}}, Type: "Int"},
+			{Name: "delta", Type: "Boolean"},
 		}},
 		{Name: "Item", File: "a.graphql", Fields: []Field{
 			{Name: "id", Type: "ID!"},
@@ -442,11 +443,11 @@ func (s *State) projectFiles() map[string]string {
 // TreeSpec identifies one initial state.
 type TreeSpec struct {
 	Layout string   `json:"layout"`
-	Bodies []string `json:"bodies"` // body element for Query.alpha, Query.beta, Query.gamma, Mutation.put, Mutation.beta, Item.owner
+	Bodies []string `json:"bodies"` // body element for Query.alpha, Query.beta, Query.gamma, Mutation.put, Mutation.beta, Item.owner, Query.delta
 	Decls  []string `json:"decls"`  // declaration elements added to the resolver files
 }
 
-var positions = []string{"queryResolver.Alpha", "queryResolver.Beta", "queryResolver.Gamma", "mutationResolver.Put", "mutationResolver.Beta", "itemResolver.Owner"}
+var positions = []string{"queryResolver.Alpha", "queryResolver.Beta", "queryResolver.Gamma", "mutationResolver.Put", "mutationResolver.Beta", "itemResolver.Owner", "queryResolver.Delta"}
 
 func (t TreeSpec) bodyOf(key string) string {
 	for i, p := range positions {
@@ -503,12 +504,46 @@ func recvTypeName(d *ast.FuncDecl) string {
 	return ""
 }
 
-// userEdit rewrites one generated resolver file.
-func userEdit(spec TreeSpec, path, src string) (string, error) {
+// twinChunks builds the colliding hand-written methods of relaxation rel for the resolver
+// methods ms (receiver type, name) of one resolver file: chunk 0 goes to a file sorting before
+// the resolver files, 1 above the resolver methods, 2 below them, 3 to a file sorting after.
+func twinChunks(rel, tag string, ms [][2]string) [4]string {
+	places := []string{"FileBefore", "Above", "Below", "FileAfter"}
+	var out [4]string
+	for pi, place := range places {
+		var b strings.Builder
+		seen := map[string]bool{}
+		if rel == "receiver" {
+			fmt.Fprintf(&b, "\n// userTwin%s%s is a hand-written type whose methods are named like resolver methods.\ntype userTwin%s%s struct{}\n", place, tag, place, tag)
+		}
+		for _, m := range ms {
+			recv, name := m[0], m[1]
+			tr, tn := recv, name
+			switch rel {
+			case "case":
+				tn = []string{lcFirst(name), strings.ToUpper(name), lcFirst(strings.ToUpper(name)), strings.ToLower(name[:len(name)-1]) + strings.ToUpper(name[len(name)-1:])}[pi]
+			case "receiver":
+				tr = "userTwin" + place + tag
+			case "affix":
+				tn = []string{name + "Impl", "Do" + name, name + "2", "do" + name}[pi]
+			}
+			if seen[tr+"."+tn] || (tr == recv && tn == name) {
+				continue
+			}
+			seen[tr+"."+tn] = true
+			fmt.Fprintf(&b, "\n// %s is hand-written (%s twin of %s.%s, placed %s).\nfunc (r *%s) %s() string {\n\treturn \"twin %s %s of %s.%s\"\n}\n", tn, rel, recv, name, place, tr, tn, rel, place, recv, name)
+		}
+		out[pi] = b.String()
+	}
+	return out
+}
+
+// userEdit rewrites one generated resolver file; it also returns additional hand-written files.
+func userEdit(spec TreeSpec, path, src string) (string, map[string]string, error) {
 	fset := token.NewFileSet()
 	f, err := parser.ParseFile(fset, path, src, parser.ParseComments)
 	if err != nil {
-		return "", fmt.Errorf("fresh file %s does not parse: %v", path, err)
+		return "", nil, fmt.Errorf("fresh file %s does not parse: %v", path, err)
 	}
 	off := func(p token.Pos) int { return fset.Position(p).Offset }
 	tag := fileTag(path)
@@ -516,7 +551,7 @@ func userEdit(spec TreeSpec, path, src string) (string, error) {
 	for _, n := range spec.Decls {
 		d := declByName(n)
 		if d == nil {
-			return "", fmt.Errorf("unknown decl element %q", n)
+			return "", nil, fmt.Errorf("unknown decl element %q", n)
 		}
 		if d.OnlyB && tag == "A" {
 			continue
@@ -530,6 +565,30 @@ func userEdit(spec TreeSpec, path, src string) (string, error) {
 		}
 	}
 
+	// colliding hand-written methods for every resolver method of this file
+	var rms [][2]string
+	for _, d := range f.Decls {
+		if fd, ok := d.(*ast.FuncDecl); ok {
+			if recv := recvTypeName(fd); recv != "" && recv != "Resolver" && strings.HasSuffix(recv, "Resolver") {
+				rms = append(rms, [2]string{recv, fd.Name.Name})
+			}
+		}
+	}
+	var twins [4]string
+	for _, d := range des {
+		if d.Twin != "" {
+			c := twinChunks(d.Twin, tag, rms)
+			for i := range twins {
+				twins[i] += c[i]
+			}
+		}
+	}
+	extra := map[string]string{}
+	if twins[0] != "" {
+		extra["graph/0_user_"+strings.ToLower(tag)+".go"] = "package graph\n" + twins[0]
+		extra["graph/zzz_user_"+strings.ToLower(tag)+".go"] = "package graph\n" + twins[3]
+	}
+
 	var out strings.Builder
 	// header: everything up to the end of the last import declaration
 	lastImp := -1
@@ -539,7 +598,7 @@ func userEdit(spec TreeSpec, path, src string) (string, error) {
 		}
 	}
 	if lastImp < 0 {
-		return "", fmt.Errorf("fresh file %s has no imports", path)
+		return "", nil, fmt.Errorf("fresh file %s has no imports", path)
 	}
 	out.WriteString(src[:off(f.Decls[lastImp].End())])
 	out.WriteString("\n")
@@ -575,6 +634,7 @@ func userEdit(spec TreeSpec, path, src string) (string, error) {
 			}
 		}
 	}
+	out.WriteString(twins[1])
 	declsDone := false
 	for _, d := range f.Decls[lastImp+1:] {
 		fd, isFunc := d.(*ast.FuncDecl)
@@ -601,7 +661,7 @@ func userEdit(spec TreeSpec, path, src string) (string, error) {
 		key := recv + "." + fd.Name.Name
 		be := bodyByName(spec.bodyOf(key))
 		if be == nil {
-			return "", fmt.Errorf("no body element for %s", key)
+			return "", nil, fmt.Errorf("no body element for %s", key)
 		}
 		rep := func(s string) string { return strings.ReplaceAll(s, "$M", key) }
 		doc := ""
@@ -617,12 +677,12 @@ func userEdit(spec TreeSpec, path, src string) (string, error) {
 		params := src[off(fd.Type.Params.Pos()):off(fd.Type.Params.End())]
 		if be.Ctx != "" {
 			if !strings.HasPrefix(params, "(ctx ") {
-				return "", fmt.Errorf("unexpected params %q", params)
+				return "", nil, fmt.Errorf("unexpected params %q", params)
 			}
 			params = "(" + be.Ctx + " " + strings.TrimPrefix(params, "(ctx ")
 		}
 		if fd.Type.Results == nil || len(fd.Type.Results.List) != 2 {
-			return "", fmt.Errorf("unexpected results of %s", key)
+			return "", nil, fmt.Errorf("unexpected results of %s", key)
 		}
 		r0 := fd.Type.Results.List[0].Type
 		r1 := fd.Type.Results.List[1].Type
@@ -655,5 +715,6 @@ func userEdit(spec TreeSpec, path, src string) (string, error) {
 	if !declsDone {
 		userDecls()
 	}
-	return out.String(), nil
+	out.WriteString(twins[2])
+	return out.String(), extra, nil
 }
